@@ -76,12 +76,21 @@ pub trait System: Sized {
 pub trait RunNow: Sized {
     spec fn rn_ident(&self) -> Ident;
     fn run_now(&mut self, world: &World)
-        ensures final(self).rn_ident() == old(self).rn_ident();
+//@if hooks
+        ensures final(self).rn_ident() == old(self).rn_ident()
+//@endif
+    ;
     fn setup(&mut self, world: &mut World)
+//@if hooks
         ensures final(world).setup_log() == old(world).setup_log() + old(self).rn_ident().setup, final(world).dispose_log() == old(world).dispose_log(),
-            final(self).rn_ident() == old(self).rn_ident();
+            final(self).rn_ident() == old(self).rn_ident()
+//@endif
+    ;
     fn dispose(self, world: &mut World)
-        ensures final(world).dispose_log() == old(world).dispose_log() + self.rn_ident().dispose, final(world).setup_log() == old(world).setup_log();
+//@if hooks
+        ensures final(world).dispose_log() == old(world).dispose_log() + self.rn_ident().dispose, final(world).setup_log() == old(world).setup_log()
+//@endif
+    ;
 }
 
 // ---- boxed systems: `Box<dyn for<'a> RunNow<'a> (+ Send)>` is opaque; its methods carry the RunNow contract
